@@ -93,6 +93,41 @@ def fam_goto(tier, rng):
                 else:
                     p = prog([tok(b, "m0"), b.call("P", []), tok(b, "m1")], [sub("P", [], body)])
                 out.append({"fam": "goto-frames:%s/%s/%s" % (k0, mk, where), "prog": p})
+    # a block has been completed (SELECT CASE with / without CASE ELSE, FOR, WHILE, IF, nests of them); a GOTO that stands
+    # AFTER it in the same body (forward, and backward as a loop) must not believe it is still inside
+    for blk in ("select", "select-noelse", "selectelse", "for", "while", "if", "select-noelse+for", "for+select-noelse"):
+        for where in ("main", "sub"):
+            for inner_loop in (False, True):
+                b = B()
+                n = var("N", "I")
+                body = [tok(b, "in")]
+                for lvl, k in enumerate(reversed(blk.split("+"))):
+                    v = var("K%d" % lvl, "I")
+                    if k == "select":
+                        body = [b.select(n, [([eqt(lit("I", 2))], body)], [tok(b, "else")])]
+                    elif k == "select-noelse":
+                        body = [b.select(n, [([eqt(lit("I", 2))], body), ([eqt(lit("I", 3))], [tok(b, "three")])])]
+                    elif k == "selectelse":
+                        body = [b.select(n, [([eqt(lit("I", 9))], [tok(b, "nine")])], body)]
+                    elif k == "for":
+                        body = [b.for_(v, lit("I", 1), lit("I", 2), None, body, hasstep=False)]
+                    elif k == "while":
+                        body = [b.let(v, lit("I", 0)), b.while_(bin_("<", v, lit("I", 2)), [b.let(v, bin_("+", v, lit("I", 1)))] + body)]
+                    else:
+                        body = [b.if_([(bin_("=", n, lit("I", 2)), body)], [tok(b, "else")])]
+                p_ = var("PASS", "I")
+                seq = [b.let(n, lit("I", 2)), b.label("AGAIN"), b.let(p_, bin_("+", p_, lit("I", 1))), tok(b, "pass", p_)] + body + \
+                      [b.if_([(bin_("<", p_, lit("I", 3)), [b.goto("AGAIN")])]), b.goto("FWD"), tok(b, "skipped"), b.label("FWD"), tok(b, "fwd")]
+                if inner_loop:
+                    r = var("RR", "I")
+                    seq = [b.for_(r, lit("I", 1), lit("I", 2), None, [b.let(p_, lit("I", 0))] + seq + [tok(b, "r", r)], hasstep=False)]
+                    # labels inside the FOR must be unique: one round only uses them; fine (the FOR repeats the same labels' code)
+                seq = seq + [tok(b, "end")]
+                if where == "main":
+                    p = prog(seq)
+                else:
+                    p = prog([tok(b, "m0"), b.call("P", []), tok(b, "m1")], [sub("P", [], seq)])
+                out.append({"fam": "goto-after:%s/%s/%s" % (blk, where, "in-for" if inner_loop else "flat"), "prog": p})
     # leaving a SELECT CASE block (alone, around or inside a FOR) with GOTO: in the main module, in a SUB, and in a
     # FUNCTION that was called while its caller had an operand pending
     for nest in (("select",), ("selectelse",), ("select", "for"), ("for", "select"), ("select", "select"), ("while", "select")):
@@ -349,6 +384,34 @@ def fam_trap(tier, rng):
                     else:
                         main = pre + [b.onerror("goto", "H"), loop] + tail + [b.label("H"), tok(b, "h", {"k": "err"}), b.resume("next")]
                     out.append({"fam": "trap-loop:%s/%s/%s/%s" % (kind, host, where, mode), "prog": prog(main, subs)})
+    # bare RESUME after an error inside a SUB / FUNCTION: the statement is executed again IN that procedure (its locals), the
+    # handler having repaired a SHARED variable
+    for kind in ("sub", "fun"):
+        for depth in (1, 2):
+            b = B()
+            gq = var("GQ", "I")
+            loc = var("LOC", "I")
+            z = var("Z", "I")
+            fail = b.let(z, bin_("+", loc, bin_("/", lit("I", 6), gq)))
+            pbody = [b.let(loc, lit("I", 30)), tok(b, "p-in", loc), fail, tok(b, "p-after", loc, z)]
+            subs = []
+            if kind == "sub":
+                subs.append(sub("PS", [("X", "I")], pbody))
+                call_inner = b.call("PS", [lit("I", 1)])
+            else:
+                subs.append(fun("PF", "I", [("X", "I")], pbody + [b.let(var("PF", "I"), z)]))
+                fc = fcall("PF", "I", [lit("I", 1)], 0)
+                call_inner = tok(b, "res", bin_("+", lit("I", 100), fc))
+                fc["sid"] = call_inner["id"]
+            if depth == 2:
+                subs.append(sub("OUTER", [], [b.let(var("OL", "I"), lit("I", 5)), call_inner, tok(b, "outer", var("OL", "I"))]))
+                call = b.call("OUTER", [])
+            else:
+                call = call_inner
+            main = [b.dim("GQ", "I", shared=True), b.let(var("LOC", "I"), lit("I", 77)), b.onerror("goto", "H"), call,
+                    tok(b, "main", var("LOC", "I"), var("Z", "I")), b.end(),
+                    b.label("H"), tok(b, "h", {"k": "err"}), b.let(gq, lit("I", 2)), b.resume("bare")]
+            out.append({"fam": "trap-resume-in-proc:%s/%d" % (kind, depth), "prog": prog(main, subs)})
     # failing block headers with RESUME (re-execute) and RESUME label
     for hk in ("if", "while", "for", "select", "dotop"):
         for mode in ("resume", "resumelabel", "none"):
